@@ -1,5 +1,5 @@
 //! C03: end-to-end pub/sub fidelity through a real server over loopback QUIC, for codec x compression x batching.
-//!   pp <codec> <algo|-> <batch: -|size:interval_ms> <n_items> <payload: s|m|l> <fin: y|n>
+//!   pp <codec> <algo|-> <batch: -|size:interval_ms> <n_items> <payload: s|m|l> <fin: y|n|f|r>   (f, r: items handed over with feed())
 //! Implementation line: the indices of the items the subscriber yielded, in order (`-` if none), then
 //! ` errs=<k>` for error items. The model predicts `0,1,…,n-1 errs=0`.
 use crate::codec::{compressor, decompressor, DynComp, DynDecomp};
@@ -53,7 +53,8 @@ fn payload(i: usize, class: &str, seed: u64) -> String {
 fn index_of(item: &str) -> Option<usize> { item.split('|').next()?.parse().ok() }
 
 async fn run_case(addr: SocketAddr, certs: &Certs, t: &[&str], seed: u64) -> anyhow::Result<String> {
-    let (codec, algo, batch, n, class, fin) = (t[1], t[2], t[3], t[4].parse::<usize>()?, t[5], t[6] == "y");
+    let (codec, algo, batch, n, class, fin) = (t[1], t[2], t[3], t[4].parse::<usize>()?, t[5], t[6] != "n");
+    let (feed, bare_ready) = (t[6] == "f" || t[6] == "r", t[6] == "r");
     let topic = format!("/verif/topic{}", TOPIC.fetch_add(1, Ordering::SeqCst));
     let client = client(addr, certs, BackoffStrategy::constant().with_max_attempts(0)).await?;
     let items: Vec<String> = (0..n).map(|i| payload(i, class, seed)).collect();
@@ -72,7 +73,14 @@ async fn run_case(addr: SocketAddr, certs: &Certs, t: &[&str], seed: u64) -> any
             if let Some(b) = batch_cfg.clone() { pb = pb.with_batching(b); }
             let mut publ = Some(pb.open().await?);
             // a `send` that returns an error does not end the case: the item was not accepted, the caller carries on
-            for (i, it) in items.iter().enumerate() { if publ.as_mut().unwrap().send($to(it)).await.is_err() { refused.push(i); } }
+            // fin modes: `y` every item with send() (accepted and flushed), then finish(); `n` the same without finish();
+            // `f` every item with feed() (accepted, nothing flushed), then finish(); `r` like `f` with one bare poll_ready
+            // before finish() (with batching that may frame a batch that has just filled up, leaving none partial)
+            for (i, it) in items.iter().enumerate() {
+                let r = if feed { publ.as_mut().unwrap().feed($to(it)).await } else { publ.as_mut().unwrap().send($to(it)).await };
+                if r.is_err() { refused.push(i); }
+            }
+            if bare_ready { let _ = futures::future::poll_fn(|cx| publ.as_mut().unwrap().poll_ready_unpin(cx)).await; }
             if fin { if publ.take().unwrap().finish().await.is_err() { finish_err = true; } } else { publ.as_mut().unwrap().flush().await?; tokio::time::sleep(Duration::from_millis(30)).await; }
             let mut got: Vec<String> = vec![];
             let mut errs = 0usize;
@@ -162,6 +170,17 @@ pub fn run(cfg: &Cfg) {
             }
         }
         cases.push("pp string - 3:60000 7 s n".into());
+        // the sink driven with feed(): nothing is flushed before finish(), which has to hand over whatever was accepted -
+        // frames sitting in the framed writer, a batch that filled up on the last poll_ready, a partial batch
+        for (codec, algo) in [("string", "-"), ("bytes", "zstd:bal"), ("bincode", "-"), ("string", "lz4:-")] {
+            for b in ["-", "3:60000", "1:60000", "3:0"] {
+                for n in [1usize, 3, 4, 6] {
+                    if cfg.tier == Tier::Quick && codec != "string" && n % 3 != 0 { continue; }
+                    cases.push(format!("pp {codec} {algo} {b} {n} s f"));
+                    cases.push(format!("pp {codec} {algo} {b} {n} s r"));
+                }
+            }
+        }
         // any batch size and interval: the extremes of both types
         cases.push("ppx string - 3:18446744073709551615 4 s y".into());
         cases.push("ppx string - 4294967295:60000 4 s y".into());
@@ -233,7 +252,7 @@ pub fn run(cfg: &Cfg) {
             Err(_) => ("TIMEOUT".to_string(), Err("C03: the exchange did not complete within 30 s".to_string())),
             Ok(Err(e)) => (format!("ERROR {}", format!("{e:?}").replace('\n', " ").chars().take(200).collect::<String>()), Err(format!("C03: client error {e}"))),
             Ok(Ok(line)) => {
-                let fin = t[6] == "y";
+                let fin = t[6] != "n";
                 let m = if line == want || (!fin && t[3] != "-") { Ok(()) } else { judge(&line, n, t[3], fin) };
                 (line, m)
             }
